@@ -752,11 +752,13 @@ pub fn require_facts(part: &mut crate::util::Part, label: &str, st: &Stats, requ
         // itself is reported in `caps_hit`
         return;
     }
-    for r in required {
-        match st.facts.get(*r) {
-            Some(n) if *n > 0 => {}
-            _ => part.machinery_errors.push(format!("{}: vacuous exploration: environment fact `{}` never occurred", label, r)),
-        }
+    // Whether an environment situation can arise at all may depend on the implementation (how
+    // many bytes it takes per read, when it sweeps, ...): a situation that never occurred is a
+    // coverage warning in the evidence (`coverage_warnings`, printed by the driver), not a
+    // failure of the check - only an exploration with a single observation is treated as broken.
+    let missing: Vec<&str> = required.iter().cloned().filter(|r| !matches!(st.facts.get(*r), Some(n) if *n > 0)).collect();
+    for r in &missing {
+        part.push("coverage_warnings", serde_json::json!(format!("{}: environment situation `{}` never occurred in this exploration", label, r)));
     }
     if st.distinct_obs < 2 && st.states > 1 {
         part.machinery_errors.push(format!("{}: vacuous exploration: a single distinct observation sequence over {} states", label, st.states));
